@@ -57,6 +57,40 @@ class Scope(BaseScope):
         return self.top.source.filename
 
 
+class flow_cached_property(cached_property):
+    """cached_property aware of loop resolution.
+
+    Names computed while a LoopFlow is resolving may have skipped a loop back
+    edge (UNRESOLVED). Such tables are valid only inside that resolution: they
+    are kept in the resolution's own scratch cache and never in the flow itself.
+    """
+    def __get__(self, obj, cls):  # type: ignore[no-untyped-def]
+        if obj is None:
+            return self
+
+        name = self.func.__name__
+        if not LoopFlow.scratch:
+            value = obj.__dict__[name] = self.func(obj)
+            return value
+
+        cache = LoopFlow.scratch[-1]
+        try:
+            value = cache[obj, name]
+        except KeyError:
+            pass
+        else:
+            LoopFlow.skipped += 1  # scratch values are incomplete by definition
+            return value
+
+        mark = LoopFlow.skipped
+        value = self.func(obj)
+        if mark == LoopFlow.skipped:
+            obj.__dict__[name] = value  # no unresolved loop was looked through
+        else:
+            cache[obj, name] = value
+        return value
+
+
 class Flow(object):
     def __init__(self, hint, scope, parents=None):
         # type: (str, Scope, t.MutableSequence[Flow | LoopFlow] | None) -> None
@@ -78,12 +112,12 @@ class Flow(object):
             self.scope.locals.add(name.name)
             insert_loc(self._names, name)
 
-    @cached_property
+    @flow_cached_property
     def names(self):
         # type: () -> t.Mapping[str, Name | MultiName]
         return MergedDict({n.name: n for n in self._names}, self.parent_names)
 
-    @cached_property
+    @flow_cached_property
     def parent_names(self):
         # type: () -> t.Mapping[str, Name | MultiName ]
         if len(self.parents) == 1:
@@ -126,6 +160,9 @@ class Flow(object):
 
 
 class LoopFlow(object):
+    scratch = []  # type: list[dict[t.Any, t.Any]]  # one cache per loop being resolved
+    skipped = 0   # how many times an unresolved loop (or a value based on it) was used
+
     if False:
         _names = None  # type: t.Mapping[str, Name | MultiName]
 
@@ -138,6 +175,7 @@ class LoopFlow(object):
     def names(self):
         # type: () -> t.Mapping[str, Name | MultiName] | Unresolved
         if self._resolving:
+            LoopFlow.skipped += 1
             return UNRESOLVED
 
         try:
@@ -146,11 +184,15 @@ class LoopFlow(object):
             pass
 
         self._resolving = True
+        LoopFlow.scratch.append({})
         try:
-            result = self._names = self.parent.names
+            result = self.parent.names
         finally:
+            LoopFlow.scratch.pop()
             self._resolving = False
 
+        if not LoopFlow.scratch:
+            self._names = result
         return result
 
 
